@@ -1,5 +1,5 @@
 //! The model's AST (Index/Model_ScalarExpr.v) on the Rust side: conversion from datafusion `Expr` and from
-//! `ScalarIndexExpr`, Coq printers, the two finding-class predicates (re-implemented; tied to the Coq
+//! `ScalarIndexExpr`, Coq printers, the finding-class predicates (re-implemented; tied to the Coq
 //! definitions by the "class" stream) and the value -> position maps.
 #![allow(dead_code)]
 use arrow_schema::DataType;
@@ -533,48 +533,9 @@ pub fn neg_over_null(info: &Info, r: &Row, e: &SExpr) -> bool {
         _ => false,
     }
 }
-/// maybe_range answers Some(..)
-pub fn fuses(info: &Info, a: &SExpr, b: &SExpr) -> bool {
-    if let (SExpr::Cmp(opl, Term::Col(lc), Term::Lit(lv)), SExpr::Cmp(opr, Term::Col(rc), Term::Lit(rv))) = (a, b) {
-        let Some(ci) = info_col(info, *lc) else { return false };
-        if lc != rc {
-            return false;
-        }
-        let pair = matches!(
-            (opl, opr),
-            (Op::GtEq, Op::LtEq) | (Op::GtEq, Op::Lt) | (Op::Gt, Op::LtEq) | (Op::Gt, Op::Lt) | (Op::LtEq, Op::GtEq) | (Op::LtEq, Op::Gt) | (Op::Lt, Op::GtEq) | (Op::Lt, Op::Gt)
-        );
-        pair && *lv != Lit::Null && *rv != Lit::Null && ci.2.iter().any(|p| matches!(p.1, Parser::Sargable(_)))
-    } else {
-        false
-    }
-}
-pub fn range_swap_hit(info: &Info, r: &Row, e: &SExpr) -> bool {
-    match e {
-        SExpr::And(a, b) => {
-            if fuses(info, a, b) {
-                if let (SExpr::Cmp(opl, Term::Col(c), Term::Lit(Lit::Val(lv))), SExpr::Cmp(opr, _, Term::Lit(Lit::Val(rv)))) = (&**a, &**b) {
-                    let swapped = matches!((opl, opr), (Op::LtEq, Op::Gt) | (Op::Lt, Op::GtEq));
-                    swapped && rv < lv && val(r, *c).map(|x| x == *lv || x == *rv).unwrap_or(false)
-                } else {
-                    false
-                }
-            } else {
-                range_swap_hit(info, r, a) || range_swap_hit(info, r, b)
-            }
-        }
-        SExpr::Not(x) => range_swap_hit(info, r, x),
-        SExpr::Or(a, b) => range_swap_hit(info, r, a) || range_swap_hit(info, r, b),
-        _ => false,
-    }
-}
 pub fn known_not_over_nullable(info: &Info, rows: &[Row], e: &SExpr) -> bool {
     rows.iter().any(|r| neg_over_null(info, r, e))
 }
-pub fn known_range_swapped(info: &Info, rows: &[Row], e: &SExpr) -> bool {
-    rows.iter().any(|r| range_swap_hit(info, r, e))
-}
-
 pub fn rows_coq(rows: &[(u64, u64, Row)]) -> String {
     coq::list(rows.iter().map(|(id, frag, vs)| format!("({id}, {frag}, {})", coq::list(vs.iter().map(|v| coq::opt(v.map(coq::z)))))))
 }
